@@ -12,3 +12,7 @@ Definition vector_init_cap : Z := 16.
 Definition vector_oldlen (hdr len stride siz : Z) : Z := hdr + len * stride.
 (* buffer_reserve: bf_callbacks.realloc(bf->bf_ptr, bf->bf_siz, newsiz, ...) *)
 Definition buffer_oldlen (len siz : Z) : Z := siz.
+(* buffer_getline_impl: getline->off += linelen + 1 *)
+Definition getline_advance (linelen : Z) : Z := linelen + 1.
+(* buffer_vprintf: buffer_reserve(bf, (size_t)n + 1) *)
+Definition printf_reserve (n : Z) : Z := n + 1.
